@@ -2151,7 +2151,7 @@ func letPat(pat string) string {
 // emitLoop: `match gloop fuel (fun st => step) init with ... end`; the state after a normal exit is bound for rest
 func (tr *translator) emitLoop(pat, ty, step string, rest func() string) string {
 	tr.usesFuel = true
-	out := "match gloop (R := " + tr.resultTy(nil) + ") fuel (fun st : " + ty + " => " + letPat(pat) + "\n  " + step + ") " + pat + " with\n"
+	out := "match gloop (R := " + memLoopR(tr.resultTy(nil)) + ") fuel (fun st : " + ty + " => " + letPat(pat) + "\n  " + step + ") " + pat + " with\n" // memLoopR: ext_mem.go (a loop inside a void closure)
 	if cfg.Fmtx != nil && strings.HasPrefix(step, "\x01") {
 		// the step function is an auxiliary top-level definition (ext_fmt.go)
 		out = "match gloop (R := " + tr.resultTy(nil) + ") fuel " + step[1:] + " " + pat + " with\n"
@@ -2408,6 +2408,7 @@ func main() {
 	}
 	memLoadConfig(data) // ext_mem.go
 	acpiLoadConfig(data) // ext_acpi.go
+	mbLoadConfig(data) // ext_mb.go
 	fset := token.NewFileSet()
 	files := map[string]*ast.File{}
 	funcs := map[string]fnSpec{}
@@ -2443,6 +2444,11 @@ func main() {
 	if len(cfg.Payload) > 0 { // ext_c13trans.go: payload fields are `option V` for a type variable V of the whole file
 		fmt.Println("Section Payload.\nContext {V : Type}.\n")
 		defer fmt.Println("End Payload.")
+	}
+	if mbOn() { // ext_mb.go (config "memstructs"): the file is a Section over the memory type and its load / store
+		defer mbPrintLayoutChecks()
+		mbOpenSection()
+		defer mbCloseSection()
 	}
 	var snames []string
 	for st := range cfg.Structs {
@@ -2552,6 +2558,7 @@ func main() {
 				structPkg["world"] = f.Pkg
 				structFields["world"] = []sfield{{name: "trace", width: -7}}
 				structFields["world"] = append(structFields["world"], memWorldFields()...) // ext_mem.go
+				structFields["world"] = append(structFields["world"], mbWorldFields()...)  // ext_mb.go
 				if cfg.Seams == nil {
 					cfg.Seams = map[string]seamSpec{}
 				}
@@ -2624,6 +2631,7 @@ func main() {
 				}
 			}
 			ty = memFieldType(f, ty) // ext_mem.go
+			ty = mbFieldType(f, ty)  // ext_mb.go
 			fds = append(fds, fieldName(st, f.name)+" : "+ty)
 		}
 		fmt.Printf("(* %s : type %s *)\n", cfg.Structs[st], st)
@@ -2647,6 +2655,7 @@ func main() {
 			memPrintHelpers(st, rn) // ext_mem.go
 		}
 	}
+	acpiPreprocess(fset, files, funcs) // ext_acpi.go: labelled continue from an inner loop, defer (syntax-tree rewrites)
 	for _, spec := range cfg.Funcs {
 		path := filepath.Join(cfg.Repo, spec.File)
 		file := files[path]
@@ -2715,6 +2724,9 @@ func main() {
 		}
 		for _, p := range decl.Type.Params.List {
 			if memParam(tr, p, en, &params) { // ext_mem.go: function-typed (seam) and pointer-into-memory parameters
+				continue
+			}
+			if mbParam(tr, p, en, &params) { // ext_mb.go: a parameter of a callback type (config "memstructs")
 				continue
 			}
 			ti := typeOf(p.Type, spec.Pkg)
